@@ -50,7 +50,7 @@ def run(prog):
                 if len(lit) == 1 and len(w) == 1 and any(mir.is_call(x, "next") or "prime" in show(x).lower() for x in mir.subterms(w[0])):
                     pairs.append((k, w[0]))
         if not pairs:
-            errs.append("no (weight, literal) pair construction found for `%s`" % what)
+            errs.append("?no (weight, literal) pair construction found for `%s`" % what)
         for k, w in pairs:
             ok = mir.is_call(w, "unwrap") and mir.is_call(strip(w[2][0]), "next") and strip(strip(w[2][0])[2][0])[0] == "upvar"
             if not ok:
